@@ -686,3 +686,81 @@ func c04Loops(c *Ctx) {
 	}
 	c.Sample("for x1 in range(3, 1, -1) { mark(\"x=\", x1); if x1 == 2 { continue }; mark(9) }")
 }
+
+// ---------------------------------------------------------------------------
+// return leaves the innermost function with ITS value, also when the finally
+// block it passes through runs the same return statement again (recursion,
+// another call of the same function) before the caller has received the value.
+
+func init() {
+	register(&Part{Prop: "C04", Name: "return-through-finally", Quick: 1, Thor: 1,
+		Desc: "a function that returns from inside try and, in the finally block, calls itself / a second function with the same shape (depth 0-4), in 4 shapes (finally recursion, except recursion, two functions alternating, return value computed by a recursive call in an argument): every call returns its own value; reference = the recursion written in Go",
+		Rule: "shapes x depths; every case non-trivial",
+		Run: func(c *Ctx) {
+			type shape struct {
+				name string
+				src  string // uses F for the function name, D for the depth
+				ref  func(d int, trace *[]string) int
+			}
+			var unwind func(n int, trace *[]string) int
+			unwind = func(n int, trace *[]string) int {
+				if n > 0 {
+					*trace = append(*trace, fmt.Sprintf("inner%d", unwind(n-1, trace)))
+				}
+				return n
+			}
+			shapes := []shape{
+				{"finally-recursion", "func f(n) {\n  try {\n    return n\n  } finally {\n    if n > 0 {\n      mark(\"inner\", f(n - 1))\n    }\n  }\n}\nmark(\"outer\", f(D))",
+					func(d int, tr *[]string) int { return unwind(d, tr) }},
+				{"except-recursion", "func f(n) {\n  try {\n    raise(\"E\")\n  } except {\n    if n > 0 {\n      mark(\"inner\", f(n - 1))\n    }\n    return n\n  }\n}\nmark(\"outer\", f(D))",
+					func(d int, tr *[]string) int { return unwind(d, tr) }},
+				{"argument-recursion", "func g(a, b) {\n  return a\n}\nfunc f(n) {\n  if n == 0 {\n    return 0\n  }\n  return g(n, f(n - 1))\n}\nmark(\"outer\", f(D))",
+					func(d int, tr *[]string) int { return d }},
+				{"two-functions", "func a(n) {\n  try {\n    return n * 10\n  } finally {\n    if n > 0 {\n      mark(\"inner\", b(n - 1))\n    }\n  }\n}\nfunc b(n) {\n  try {\n    return n * 10\n  } finally {\n    if n > 0 {\n      mark(\"inner\", a(n - 1))\n    }\n  }\n}\nmark(\"outer\", a(D) / 10)",
+					func(d int, tr *[]string) int {
+						var ab func(n int) int
+						ab = func(n int) int {
+							if n > 0 {
+								*tr = append(*tr, fmt.Sprintf("inner%d", ab(n-1)))
+							}
+							return n * 10
+						}
+						return ab(d) / 10
+					}},
+			}
+			for _, sh := range shapes {
+				for d := 0; d <= 4; d++ {
+					if !c.Mine() {
+						continue
+					}
+					src := strings.Replace(sh.src, "D", fmt.Sprint(d), -1)
+					c.Begin(src)
+					var want []string
+					res := sh.ref(d, &want)
+					want = append(want, fmt.Sprintf("outer%d", res))
+					var trace []string
+					out := evalECAL(src, evalOpts{budget: 100000, setup: func(vs parser.Scope, erp *interpreter.ECALRuntimeProvider) {
+						vs.SetValue("mark", &hfunc{func(args []interface{}) (interface{}, error) {
+							var p []string
+							for _, a := range args {
+								p = append(p, fmt.Sprint(a))
+							}
+							trace = append(trace, strings.Join(p, ""))
+							return nil, nil
+						}})
+					}})
+					if out.panicKey != "" || out.err != nil || out.budget {
+						c.Viol("return-through-finally program fails", fmt.Sprintf("%v %v\n%s", out.panicKey, out.err, src), src)
+						continue
+					}
+					c.Nontrivial()
+					if fmt.Sprint(trace) != fmt.Sprint(want) {
+						c.Viol("return delivers another call's value ("+sh.name+")", fmt.Sprintf("trace %v, expected %v\n%s", trace, want, src), src)
+						continue
+					}
+					c.Outcome("agrees")
+				}
+			}
+			c.Sample("func f(n) { try { return n } finally { if n > 0 { mark(\"inner\", f(n - 1)) } } }  f(2): inner0 inner1 outer2")
+		}})
+}
